@@ -916,6 +916,14 @@ func (c *Conn) WriteFrame(messageType MessageType, sendOpcode, fin bool, data []
 		return net.ErrClosed
 	}
 
+	switch messageType {
+	case PingMessage, PongMessage, CloseMessage:
+		if len(data) > maxControlFramePayloadSize {
+			return ErrControlMessageTooBig
+		}
+	default:
+	}
+
 	return c.writeFrame(messageType, sendOpcode, fin, data, false)
 }
 
